@@ -164,7 +164,8 @@ def run_judge(module, cfg, records, workers=16, timeout=3600, env=None, heap='6g
         shutil.rmtree(d, ignore_errors=True)
     out = res['out']
     if res['rc'] != 0 or not res['finished'] or res['error']:
-        raise MachineryError('TLC failed on %s/%s (rc=%s):\n%s' % (module, cfg, res['rc'], out[-3000:]))
+        brief = '\n'.join(l for l in out.splitlines() if not l.startswith('<<"'))
+        raise MachineryError('TLC failed on %s/%s (rc=%s):\n%s' % (module, cfg, res['rc'], brief[-2500:]))
     checked = set()
     verdicts, lenient, drift = {}, {}, {}
     for v in parse_printed(out, 'K'):
